@@ -72,8 +72,13 @@ def check_nfa(ctx, ndef, tag):
                 ms = enc.dec_res(m[1][3])
                 if ms[0] != "ok":
                     ctx.violation(f"model minimisation failed: {ms}", replay, confirmed=False)
-                elif size_impl != ms[1]:
-                    problems.append(f"minify=True result has {size_impl} states, the minimal DFA for this language has {ms[1]}")
+                else:
+                    # minimum for the result's own kind (see C05): live classes, plus the dead class for a complete result
+                    live, live_is_partial = ms[1][0], bool(ms[1][1])
+                    want = live if obj.allow_partial else live + (1 if live_is_partial else 0)
+                    if size_impl != want:
+                        problems.append(f"minify=True result ({'partial' if obj.allow_partial else 'complete'}) has "
+                                        f"{size_impl} states, the minimum for a DFA of that kind is {want}")
             if rn and not mn and subset_states[0] == "ok":
                 want = {frozenset(s) for s in subset_states[1]}
                 got = {frozenset(st(q) for q in name) for name in obj.states}
